@@ -88,6 +88,90 @@ CHECKS = {
          "get_error() must be the injected exception.",
          "Trusted: mxmc/refsem.py (stack and traceback line numbers of the same source text), tick() fault injection.",
          "DESIGN.md section 2 C17"),
+ "C03": ("model_checking",
+         "explicit-state BFS over member/base edits from ALL linearisable ordered-base DAGs on 3 spaces; CPython C3 + reference derivation + from-scratch differential as oracle",
+         "Roots: all 28 ordered-base DAGs on 3 top-level spaces that have a C3 linearisation x all 8 placements of a cells name x all "
+         "8 placements of a reference name (1792 roots). BFS over new/delete/redefine cells, set/delete reference, add/remove base, "
+         "new space with ordered bases, delete space, cached-flag toggle (depth 1 everywhere, 2 on sparse roots; thorough 2/3). After "
+         "every accepted op, for every space: bases == type().__mro__ of CPython, members == reference derivation, derived copies "
+         "carry the first definer's formula/value/flag, derived flags, evaluation with names resolved in the sub, and the "
+         "whole view == a model constructed from scratch out of the reference definitions.",
+         "Trusted: CPython's C3, mxmc/refsem.py derivation, ops.apply_ref. Only ops the reference deems well-formed are generated (C11 "
+         "covers rejections).",
+         "DESIGN.md section 2 C03"),
+ "C04": ("exploration",
+         "bounded-exhaustive enumeration of models over a construct x attribute cross product, write/read differential",
+         "One focus construct (cells, reference, doc, parameter formula + ItemSpace inputs, inheritance shape, allow_none) taken over "
+         "the full cross product of its attributes, in several contexts, written to a directory and to a zip and read back (thorough: "
+         "write-read-write-read chains, cold/warm): public description before == after, reference modes, values of all probes, "
+         "readable, source untouched, zip members == directory files.",
+         "Trusted: the description extractor (public API), NaN-aware equality. Not compared: model name, path, dict orders, ItemSpace auto names.",
+         "DESIGN.md section 2 C04"),
+ "C07": ("model_checking",
+         "explicit-state BFS over instantiate / evaluate / input / discard / base-edit histories with a table of all handles",
+         "7 roots (parameter signatures (i), (i, j=0), (); formulas returning None, extra refs, another base, _self; child space; nested "
+         "parametrised child) x BFS depth 3/2 (thorough 4/3), histories not merged because every handle ever obtained is part of the "
+         "state. Oracle: reference evaluator for values in instances, `is`-identity of instances for all argument spellings that bind "
+         "equally, live == fresh-model-with-edits-only, old handles raise DeletedObjectError on every probe or are the current instance.",
+         "Trusted: mxmc/refsem.py ItemSpace semantics; the reference `value` clause applies to edit-free histories, edits are judged by the "
+         "live==fresh differential.",
+         "DESIGN.md section 2 C07"),
+ "C10": ("model_checking",
+         "explicit-state BFS from all (mode x target placement x definer x construction order) roots; closed-form binding rule as oracle",
+         "84 roots: 3 modes x target in {definer, its cells, descendant space, cells in a descendant, outside space/cells, outside "
+         "space with the definer's name as string prefix} x definer {top-level, nested} x {reference before/after the subs exist}. "
+         "Histories depth 2 (3): re-point, change mode, delete, remove/add base, discard/re-instantiate, new cells, write+read (dir "
+         "and zip). Derivers checked in every state: sub, sub of sub, ItemSpace of the definer (two args), ItemSpace of a sub, child "
+         "of an ItemSpace; reported refmode; bindings after write/read.",
+         "Only what the statement fixes is judged (descendant targets under static derivation and relative references without a "
+         "relative counterpart - documented to be an error - are not).",
+         "DESIGN.md section 2 C10"),
+ "C11": ("model_checking",
+         "exhaustive application of a catalogue of invalid operations in every root state and every state one valid op away",
+         "States: all 28 linearisable DAGs x member placements (+ extras: input, non-scalar, uncached, child space, scalar input) "
+         "and the states one structural op away. In each state every applicable invalid op of the catalogue (invalid names x 9 "
+         "operations, name clashes in the space and in subs, cyclic / non-linearisable bases via add_bases and new_space, relative "
+         "references that cannot be rebound, delete/rename derived members, malformed formulas, unassignable values, non-bases, "
+         "missing members). Raises => public description, all values, self-checks identical to before. Accepted => base relation "
+         "acyclic + CPython-C3 linearisable, names valid identifiers.",
+         "Trusted: the description extractor; CPython C3. Nothing is demanded about which ops are rejected beyond well-formedness.",
+         "DESIGN.md section 2 C11"),
+ "C12": ("model_checking",
+         "explicit-state BFS over clash-seeking member/base edit histories (rejections allowed); container/namespace invariants in every state",
+         "6 roots x alphabet of ~50 ops using the same two names as cells / reference / child space in different spaces, base changes, "
+         "model references vs space names, parameter names vs members; depth 3 (2 on four roots; thorough 4). Every static and dynamic "
+         "space in every state: one kind per name; dir(), getattr and the globals seen by a probe formula == cells + refs + child "
+         "spaces, each bound to the container's object; mxsys._check_sanity() and model._impl._check_sanity() pass.",
+         "Precedence between a member and a model-level reference / parameter of the same name is not fixed by the statement: either "
+         "resolution is accepted.",
+         "DESIGN.md section 2 C12"),
+ "C13": ("model_checking",
+         "explicit-state BFS over deletion triggers and evaluations with a table of every handle ever seen",
+         "One model with inheritance, child spaces, parametrised spaces (own ItemSpaces, ItemSpaces with another base, nested child), "
+         "object-valued references; 22 edits (every way a deletion can be triggered) + 10 evaluations, all histories to depth 3 (4), "
+         "not merged. After every history: unreachable handles raise DeletedObjectError on every probe (attribute, call, "
+         "subscription, edit); reachable ones do not; no bases list / graph node / preds-succs listing mentions a dead object; "
+         "static objects == those of a fresh model that replayed the edits; values live == fresh.",
+         "Trusted: reachability through public containers as definition of 'deleted', cross-checked with the fresh model.",
+         "DESIGN.md section 2 C13"),
+ "C15": ("exploration",
+         "bounded-exhaustive enumeration of programs in the documented export subset; differential package (modelx import blocked) vs model",
+         "Programs = structure (15) x context/form (72) x name-use atom (54) x cached flags (4), slices of the product per tier "
+         "(2538 quick / 31276 thorough); every model is exported, the packages are imported in subprocesses in which importing "
+         "modelx raises, and every cells x arguments (incl. ItemSpace instances, nested) is compared: same value, cached == uncached, "
+         "no modelx in sys.modules, export/import does not raise.",
+         "Trusted: the program generator stays inside the documented subset (limitations section of export_model); queries on which the "
+         "model itself raises are not judged.",
+         "DESIGN.md section 2 C15"),
+ "C20": ("exploration",
+         "grammar-exhaustive enumeration of function texts (form x name x params x docstring x comment x body x indentation)",
+         "Cross product of 14 forms (source text and function objects from a real module file, decorators, lambdas embedded in "
+         "assignments/calls, @defcells) x parameters x docstrings x comment positions x bodies x indentation (12222 texts quick, 112101 "
+         "thorough). Clauses: behaves like the plain function with globals bound in the space; formula.source is a self-contained "
+         "definition under the cells' name; new_cells(source) reproduces source and behaviour; rename changes only the name; doc "
+         "replacement (9 doc classes) changes only the docstring.",
+         "Trusted: CPython compiling the generator's canonical text as reference function; token-based source comparison.",
+         "DESIGN.md section 2 C20"),
 }
 NOT_BUILT = {}
 
